@@ -383,6 +383,21 @@ func init() {
 			c.args = append(c.args, c.reqText)
 			add(c)
 		}
+		// rich replies: the device answers one request frame with trees in which tags repeat as values and as containers,
+		// at several depths; every output format has to come out as one document (or a clean failure)
+		for i := 0; i < n/2+6; i++ {
+			c := base("rich reply")
+			c.format = formats[g.pick(3)]
+			mkReq(c, 1+g.pick(2), true)
+			tags := []rscp.Tag{g.respTags[g.pick(len(g.respTags))], g.respTags[g.pick(len(g.respTags))], rscp.BAT_DATA}
+			var rs []rscp.Message
+			for k := 0; k <= g.pick(5); k++ {
+				rs = append(rs, g.response(2, tags, false))
+			}
+			c.users = []replySpec{frameReply(rs)}
+			c.args = append(c.args, "-output", c.format, c.reqText)
+			add(c)
+		}
 		// split run equals unsplit run against a device that answers every request with one message
 		for i := 0; i < 6+n/10; i++ {
 			var pair [2]*cliCase
